@@ -1,0 +1,109 @@
+//go:build verif
+
+package s2
+
+// Read-only access for the verification harness (property C04: point containment).
+// Add-only; no behaviour of the package changes.
+
+// VerifC04BruteForceContainsPoint is Loop.bruteForceContainsPoint (never looks at the index
+// or the bound).
+func (l *Loop) VerifC04BruteForceContainsPoint(p Point) bool { return l.bruteForceContainsPoint(p) }
+
+// VerifC04Index returns the loop's own index (without building it).
+func (l *Loop) VerifC04Index() *ShapeIndex { return l.index }
+
+// VerifC04BoundContains is the bound test ContainsPoint uses for its early rejection.
+func (l *Loop) VerifC04BoundContains(p Point) bool { return l.bound.ContainsPoint(p) }
+
+// VerifC04IndexShapes is len(l.index.shapes), the "index not initialized yet" test.
+func (l *Loop) VerifC04IndexShapes() int { return len(l.index.shapes) }
+
+// VerifC04IteratorContainsPoint runs the index path of Loop.ContainsPoint alone
+// (LocatePoint + iteratorContainsPoint), whatever the vertex count. located reports
+// whether an index cell contains p.
+func (l *Loop) VerifC04IteratorContainsPoint(p Point) (contains, located bool) {
+	it := l.index.Iterator()
+	if !it.LocatePoint(p) {
+		return false, false
+	}
+	return l.iteratorContainsPoint(it, p), true
+}
+
+// VerifC04Index returns the polygon's index (nil for the full polygon).
+func (p *Polygon) VerifC04Index() *ShapeIndex { return p.index }
+
+// VerifC04BoundContains is the bound test Polygon.ContainsPoint uses.
+func (p *Polygon) VerifC04BoundContains(pt Point) bool { return p.bound.ContainsPoint(pt) }
+
+// VerifC04IteratorContainsPoint runs Polygon.iteratorContainsPoint after LocatePoint.
+func (p *Polygon) VerifC04IteratorContainsPoint(pt Point) (contains, located bool) {
+	it := p.index.Iterator()
+	if !it.LocatePoint(pt) {
+		return false, false
+	}
+	return p.iteratorContainsPoint(it, pt), true
+}
+
+// VerifC04ContainsBruteForce is shapeutil.go's containsBruteForce.
+func VerifC04ContainsBruteForce(shape Shape, p Point) bool { return containsBruteForce(shape, p) }
+
+// VerifC04TrackerOrigin is the focus the interior tracker starts from.
+func VerifC04TrackerOrigin() Point { return trackerOrigin() }
+
+// VerifC04Clipped is one clippedShape of an index cell.
+type VerifC04Clipped struct {
+	ShapeID        int32
+	Edges          []int
+	ContainsCenter bool
+}
+
+// VerifC04Cell is one index cell.
+type VerifC04Cell struct {
+	ID     CellID
+	Center Point
+	Shapes []VerifC04Clipped
+}
+
+// VerifC04Cells builds the index if needed and dumps its cells in index order.
+func VerifC04Cells(s *ShapeIndex) []VerifC04Cell {
+	if s == nil {
+		return nil
+	}
+	var out []VerifC04Cell
+	for it := s.Iterator(); !it.Done(); it.Next() {
+		vc := VerifC04Cell{ID: it.CellID(), Center: it.Center()}
+		for _, cl := range it.IndexCell().shapes {
+			vc.Shapes = append(vc.Shapes, VerifC04Clipped{
+				ShapeID:        cl.shapeID,
+				Edges:          append([]int(nil), cl.edges...),
+				ContainsCenter: cl.containsCenter,
+			})
+		}
+		out = append(out, vc)
+	}
+	return out
+}
+
+// VerifC04Locate returns the id of the index cell that LocatePoint finds for p.
+func VerifC04Locate(s *ShapeIndex, p Point) (CellID, bool) {
+	it := s.Iterator()
+	if !it.LocatePoint(p) {
+		return 0, false
+	}
+	return it.CellID(), true
+}
+
+// VerifC04CellPath returns the points the interior tracker moves through when makeIndexCell
+// creates the cell id: entry vertex, centre, exit vertex of the padded cell.
+func VerifC04CellPath(id CellID) (entry, center, exit Point) {
+	p := PaddedCellFromCellID(id, cellPadding)
+	return p.EntryVertex(), p.Center(), p.ExitVertex()
+}
+
+// VerifC04TrackerFirstLeaf is the cell id a new tracker expects next.
+func VerifC04TrackerFirstLeaf() CellID { return CellIDFromFace(0).ChildBeginAtLevel(MaxLevel) }
+
+// VerifC04CellFaceUV returns the two inputs Cell.Vertex reads: the face and the uv rectangle.
+func VerifC04CellFaceUV(c Cell) (face int, ulo, uhi, vlo, vhi float64) {
+	return int(c.face), c.uv.X.Lo, c.uv.X.Hi, c.uv.Y.Lo, c.uv.Y.Hi
+}
